@@ -76,7 +76,21 @@ fn panic_msg(p: Box<dyn std::any::Any + Send>) -> String {
 }
 
 /// Outcome class of an implementation call, as text: `OK <payload>` / `ERR <kind>` / `PANIC`.
+/// When enabled (by the harness's main), every call into the crate flips the process-wide `log` level between
+/// Trace and Off: the arguments of the crate's `trace!`/`debug!` statements are evaluated in one and not in the
+/// other, and nothing the caller can observe may depend on that.
+pub static LOG_FLIP: std::sync::atomic::AtomicBool = std::sync::atomic::AtomicBool::new(false);
+static LOG_FLIP_COUNT: std::sync::atomic::AtomicU64 = std::sync::atomic::AtomicU64::new(0);
+
+pub fn flip_log_level() {
+    if LOG_FLIP.load(std::sync::atomic::Ordering::Relaxed) {
+        let n = LOG_FLIP_COUNT.fetch_add(1, std::sync::atomic::Ordering::Relaxed);
+        log::set_max_level(if n % 2 == 0 { log::LevelFilter::Trace } else { log::LevelFilter::Off });
+    }
+}
+
 pub fn guard<F: FnOnce() -> Result<String, SignatureError>>(f: F) -> String {
+    flip_log_level();
     match catch_unwind(AssertUnwindSafe(f)) {
         Ok(Ok(s)) => format!("OK {}", s),
         Ok(Err(e)) => format!("ERR {}", kind_of(&e)),
@@ -146,6 +160,7 @@ pub fn build_headers(hs: &[(String, Vec<u8>)]) -> Option<http::HeaderMap> {
 }
 
 pub fn ctype(hs: &[(String, Vec<u8>)]) -> Option<String> {
+    flip_log_level();
     let m = build_headers(hs)?;
     Some(match catch_unwind(AssertUnwindSafe(|| canonical::get_content_type_and_charset(&m))) {
         Ok(None) => "NONE".to_string(),
@@ -167,6 +182,7 @@ fn blank_creq() -> CanonicalRequest {
 /// `parse_from_iso8601` reached through `get_authenticator_from_auth_parameters` (unstable API):
 /// `OK <ns>` / `NONE` (the rule-9 error) / `PANIC`.
 pub fn iso(s: &str) -> String {
+    flip_log_level();
     let r = catch_unwind(AssertUnwindSafe(|| {
         let creq = blank_creq();
         let mut builder = SigV4Authenticator::builder();
@@ -217,6 +233,7 @@ pub fn secret_from_str_m(m: usize, s: &str) -> Option<String> {
 
 /// The default-capacity key type and the whole derivation chain, every shortcut included.
 pub fn keys44(secret: &str, date: NaiveDate, region: &str, service: &str) -> String {
+    flip_log_level();
     let r = catch_unwind(AssertUnwindSafe(|| {
         let k = match KSecretKey::<44>::from_str(secret) {
             Ok(k) => k,
@@ -317,15 +334,29 @@ fn to_box(e: &ProvErr) -> BoxError {
     match e {
         ProvErr::Sig(k) => Box::new(make_error(k)),
         ProvErr::Foreign => Box::new(ForeignError),
+        ProvErr::ForeignOther(k) => match *k {
+            "NotFound" => Box::new(std::io::Error::new(std::io::ErrorKind::NotFound, "no such key record")),
+            "PermissionDenied" => Box::new(std::io::Error::new(std::io::ErrorKind::PermissionDenied, "key store refused")),
+            "TimedOut" => Box::new(std::io::Error::new(std::io::ErrorKind::TimedOut, "key store timed out")),
+            "Other" => Box::new(std::io::Error::new(std::io::ErrorKind::Other, "key store failed")),
+            _ => "key store unavailable".into(),
+        },
     }
 }
 
+/// The identity "-" stands for a provider answer that carries a key but no principal and no session data.
 pub fn principal_for(identity: &str) -> Principal {
+    if identity == "-" {
+        return Principal::default();
+    }
     User::new("aws", "123456789012", "/", identity).expect("user").into()
 }
 
 pub fn session_for(identity: &str) -> SessionData {
     let mut s = SessionData::new();
+    if identity == "-" {
+        return s;
+    }
     s.insert("aws:username", SessionValue::String(identity.to_string()));
     s
 }
@@ -531,6 +562,7 @@ fn headers_list(h: &http::HeaderMap) -> Vec<(String, Vec<u8>)> {
 
 /// Run `sigv4_validate_request` on the real crate against a given provider.
 pub fn validate_with(c: &Case, req: Request<Bytes>, prov: &mut Provider) -> ValOut {
+    flip_log_level();
     let now = mk_time(c.now.0, c.now.1).expect("server time in chrono range");
     let opts = SignatureOptions { s3: c.s3, url_encode_form: c.fold };
     let calls_before = prov.0.lock().unwrap().calls.len();
@@ -808,6 +840,7 @@ pub fn validate_variant(c: &Case, kind: u8, adapter: bool) -> Option<(String, Op
 /// `prevalidate` + `get_string_to_sign` on an authenticator built directly (unstable API), for arbitrary
 /// credential strings and instants.
 pub fn preval(cred: &str, t: (i64, u32), now: (i64, u32), region: &str, service: &str) -> Option<String> {
+    flip_log_level();
     let ts = mk_time(t.0, t.1)?;
     let now = mk_time(now.0, now.1)?;
     Some(guard(|| {
@@ -899,4 +932,30 @@ pub fn validate_interleaved(cases: &[Case]) -> Option<Vec<String>> {
         Ok(v) => v,
         Err(p) => vec![format!("PANIC {}", panic_msg(p).replace(' ', "_")); cases.len()],
     })
+}
+
+/// Start a validation, poll it `polls` times and drop it unfinished (a client that went away, a timeout):
+/// returns true if it completed within those polls. Whatever the library holds while a validation is in
+/// flight must be released when its future is dropped.
+pub fn validate_abandoned(c: &Case, polls: usize) -> Option<bool> {
+    let mut prov = provider_for(vec![entry_of(c)]);
+    let req = build_request(c)?;
+    let a: Vec<Cow<str>> = c.always.iter().map(|s| Cow::Borrowed(s.as_str())).collect();
+    let b: Vec<Cow<str>> = c.ifreq.iter().map(|s| Cow::Borrowed(s.as_str())).collect();
+    let p: Vec<Cow<str>> = c.prefixes.iter().map(|s| Cow::Borrowed(s.as_str())).collect();
+    let reqs = SliceSignedHeaderRequirements::new(&a, &b, &p);
+    let now = mk_time(c.now.0, c.now.1)?;
+    let opts = SignatureOptions { s3: c.s3, url_encode_form: c.fold };
+    let r = catch_unwind(AssertUnwindSafe(|| {
+        let mut fut = Box::pin(sigv4_validate_request(req, &c.region, &c.service, &mut prov, now, &reqs, opts));
+        let waker = Waker::noop();
+        let mut cx = Context::from_waker(waker);
+        for _ in 0..polls {
+            if fut.as_mut().poll(&mut cx).is_ready() {
+                return true;
+            }
+        }
+        false
+    }));
+    Some(r.unwrap_or(true))
 }
